@@ -181,6 +181,12 @@ Theorem C02_pop_run_full : forall b s dt steps ss y0, (1 <= ss)%nat ->
 Proof. exact pop_run_eq_spec. Qed.
 Print Assumptions C02_pop_run_full.
 
+(* user-level roll(x, n) equations with any (also negative) literal shifts: every backend's rendering gives the numpy result *)
+Theorem C02_roll_net_full : forall b a k g n1 n2 n3 x z,
+  roll_net_deriv (roll_of b) a k g n1 n2 n3 x z = roll_net_deriv roll a k g n1 n2 n3 x z.
+Proof. exact roll_net_backend_independent. Qed.
+Print Assumptions C02_roll_net_full.
+
 (* ------------------------------------------------------------------------------------------------ (v) sigmoid *)
 (* the algebraic part: 1/(1+exp(-x)) (base def, Fortran helper text, numpy stand-ins of torch/jax) equals the logistic form
    exp(x)/(1+exp(x)) (torch.sigmoid, jax.nn.sigmoid) for ANY function E with E(-x)*E(x) = 1; value 1/2 at 0 *)
